@@ -143,9 +143,11 @@ Record srt := mk_srt {
   copt : cors_opt;              (* CORS options as given *)
   rcors : cors;                 (* sanitised (model side) *)
   allwf : bool;                 (* every pattern accepted so far is well-formed (the properties' quantifier) *)
+  shapeunk : bool;              (* a Handle of a pattern outside the well-formed fragment was rejected: the implementation may
+                                   have split nodes on the way before failing (same routes, other tree shape) - dumps not compared *)
 }.
 #[export] Instance eta_srt : Settable _ :=
-  settable! mk_srt <rt; facs; unsup; pid; tc; live; uses; addonly; memo; rejected; frame; syn; copt; rcors; allwf>.
+  settable! mk_srt <rt; facs; unsup; pid; tc; live; uses; addonly; memo; rejected; frame; syn; copt; rcors; allwf; shapeunk>.
 
 (* cfg … <n> ic… cors <n> origins… <n> allow-headers… <n> exposed… max-age creds *)
 Definition no_cors : cors_opt :=
@@ -173,7 +175,7 @@ Definition init_rt (pid : bytes) (h : list line) : srt :=
   {| rt := new_router (arg 2 cfg) ic (argb 1 cfg) (arg 3 cfg); facs := []; unsup := false; pid := pid;
      tc := {| c_trace := argb 1 cfg; c_router := arg 2 cfg; c_ic := ic |};
      live := []; uses := []; addonly := true; memo := []; rejected := false; frame := []; syn := [];
-     copt := cors_of_cfg cfg; rcors := opt_default deny_cors (cors_sanitize (cors_of_cfg cfg)); allwf := true |}.
+     copt := cors_of_cfg cfg; rcors := opt_default deny_cors (cors_sanitize (cors_of_cfg cfg)); allwf := true; shapeunk := false |}.
 
 Definition target_facade (s : srt) (t : bytes) : option facade :=
   if beqb t (bs "r") then None else alookup t (facs s).
@@ -283,7 +285,7 @@ Definition step_rt (s : srt) (o : line) : srt * list bytes :=
     if negb (ascii_bytes (arg 2 o)) && tree_has_regexp (rtree (rt s)) then (s, [bs "unsup"])
     else (s, serve_obs (rtree (rt s)) (arg 1 o) (arg 2 o) [])
   else if beqb op (bs "routes") then (s, routes_obs (rtree (rt s)))
-  else if beqb op (bs "dump") then (s, dump_tree (rtree (rt s)))
+  else if beqb op (bs "dump") then (s, if shapeunk s then [bs "unsup"] else dump_tree (rtree (rt s)))
   else if beqb op (bs "url") then
     (* url <target> <strict> <pattern> <n> k v … *)
     let ps := pairs (fst (take_list (skipn 4 a))) in
@@ -304,11 +306,6 @@ Definition step_rt (s : srt) (o : line) : srt * list bytes :=
     let ps := fold_left (fun acc kv => ctx_set acc (fst kv) (snd kv)) ps [] in
     (s, url_obs (mux_url (arg 1 o) ps))
   else (s, [bs "unknown-op"]).
-
-(* once a case has left the modelled regexp fragment nothing more is compared *)
-Definition step_rt' (s : srt) (o : line) : srt * list bytes :=
-  if unsup s then (s, [bs "unsup"]) else step_rt s o.
-
 
 (* ================================================================ the properties, judged on
    the IMPLEMENTATION's observations.  Clause names are prefixed by the property they falsify. *)
@@ -855,6 +852,16 @@ Definition tags_rt (s s' : srt) (o : line) (r : list bytes) : list bytes :=
   else if beqb op (bs "handle") then [if obs_is r "ok" then bs "handle-ok" else bs "handle-rejected"]
   else if beqb op (bs "url") then [if obs_is r "ok" then bs "url-ok" else bs "url-err"]
   else [op].
+
+(* once a case has left the modelled regexp fragment nothing more is compared *)
+Definition step_rt' (s : srt) (o : line) : srt * list bytes :=
+  if unsup s then (s, [bs "unsup"]) else
+  let '(s', obs) := step_rt s o in
+  if beqb (arg 0 o) (bs "handle") && negb (lines_eqb obs [bs "ok"]) &&
+     match classify (c_ic (tc s)) (full_pattern s (arg 1 o) (arg 2 o)) with PWf _ => false | _ => true end
+  then (s' <| shapeunk := true |>, obs) else (s', obs).
+
+
 
 Definition suite_rt (pid : bytes) : suite :=
   {| St := srt; init := init_rt pid; step := step_rt'; oracle := oracle_rt; tags := tags_rt; absorb := absorb_rt |}.
